@@ -29,7 +29,7 @@ const baseSPDX = `{
  "packages": [
   {"name": "a", "SPDXID": "SPDXRef-a", "versionInfo": "1.0", "packageFileName": "a.tgz", "supplier": "Organization: sup (s@x.y)", "originator": "Person: ori",
    "downloadLocation": "https://e.x/a.tgz", "filesAnalyzed": true, "packageVerificationCode": {"packageVerificationCodeValue": "d6a770ba38583ed4bb4525bd96e50461655d2758", "packageVerificationCodeExcludedFiles": ["x"]},
-   "checksums": [{"algorithm": "SHA256", "checksumValue": "00"}, {"algorithm": "MD5", "checksumValue": "11"}], "homepage": "https://e.x", "sourceInfo": "si",
+   "checksums": [{"algorithm": "SHA256", "checksumValue": "0000000000000000000000000000000000000000000000000000000000000000"}, {"algorithm": "MD5", "checksumValue": "1111111111111111111111111111111111111111111111111111111111111111"}], "homepage": "https://e.x", "sourceInfo": "si",
    "licenseConcluded": "MIT", "licenseInfoFromFiles": ["MIT"], "licenseDeclared": "MIT", "licenseComments": "lc", "copyrightText": "(c) a", "summary": "s", "description": "d", "comment": "pc",
    "externalRefs": [{"referenceCategory": "PACKAGE-MANAGER", "referenceType": "purl", "referenceLocator": "pkg:npm/a@1.0", "comment": "x"},
                     {"referenceCategory": "SECURITY", "referenceType": "cpe23Type", "referenceLocator": "cpe:2.3:a:a:a:1.0:*:*:*:*:*:*:*"},
@@ -40,7 +40,7 @@ const baseSPDX = `{
    "hasFiles": ["SPDXRef-f"], "annotations": [{"annotator": "Person: an", "annotationDate": "2024-01-02T03:04:05Z", "annotationType": "REVIEW", "comment": "ok"}]},
   {"name": "b", "SPDXID": "SPDXRef-b", "downloadLocation": "NOASSERTION", "filesAnalyzed": false, "licenseConcluded": "NOASSERTION", "copyrightText": "NONE", "supplier": "NOASSERTION"}
  ],
- "files": [{"fileName": "./f", "SPDXID": "SPDXRef-f", "fileTypes": ["SOURCE", "TEXT"], "checksums": [{"algorithm": "SHA1", "checksumValue": "aa"}], "licenseConcluded": "MIT",
+ "files": [{"fileName": "./f", "SPDXID": "SPDXRef-f", "fileTypes": ["SOURCE", "TEXT"], "checksums": [{"algorithm": "SHA1", "checksumValue": "aaaaaaaaaaaaaaaaaaaaaaaaaaaaaaaaaaaaaaaaaaaaaaaaaaaaaaaaaaaaaaaa"}], "licenseConcluded": "MIT",
    "licenseInfoInFiles": ["MIT"], "licenseComments": "flc", "copyrightText": "(c) f", "comment": "fc", "noticeText": "n", "fileContributors": ["x"], "attributionTexts": ["fat"]}],
  "snippets": [{"SPDXID": "SPDXRef-s", "snippetFromFile": "SPDXRef-f", "ranges": [{"startPointer": {"offset": 1, "reference": "SPDXRef-f"}, "endPointer": {"offset": 2, "reference": "SPDXRef-f"}}], "licenseConcluded": "MIT", "name": "sn"}],
  "hasExtractedLicensingInfos": [{"licenseId": "LicenseRef-1", "extractedText": "t", "name": "n"}],
@@ -57,18 +57,18 @@ const baseCDX = `{
  "metadata": {"timestamp": "2024-01-02T03:04:05Z", "lifecycles": [{"phase": "build"}, {"name": "custom", "description": "cd"}],
   "tools": [{"vendor": "v", "name": "t", "version": "1"}], "authors": [{"name": "au", "email": "a@x.y", "phone": "1"}],
   "component": {"bom-ref": "root", "type": "application", "name": "rootc", "version": "9", "description": "rd", "copyright": "(c) r",
-    "hashes": [{"alg": "SHA-256", "content": "00"}], "licenses": [{"license": {"id": "MIT"}}], "purl": "pkg:npm/root@9", "cpe": "cpe:2.3:a:r:r:9:*:*:*:*:*:*:*",
+    "hashes": [{"alg": "SHA-256", "content": "0000000000000000000000000000000000000000000000000000000000000000"}], "licenses": [{"license": {"id": "MIT"}}], "purl": "pkg:npm/root@9", "cpe": "cpe:2.3:a:r:r:9:*:*:*:*:*:*:*",
     "supplier": {"name": "sup", "url": ["https://s"], "contact": [{"name": "c", "email": "c@x.y"}]},
-    "externalReferences": [{"type": "vcs", "url": "https://git", "comment": "c", "hashes": [{"alg": "SHA-1", "content": "aa"}]}],
+    "externalReferences": [{"type": "vcs", "url": "https://git", "comment": "c", "hashes": [{"alg": "SHA-1", "content": "aaaaaaaaaaaaaaaaaaaaaaaaaaaaaaaaaaaaaaaaaaaaaaaaaaaaaaaaaaaaaaaa"}]}],
     "components": [{"bom-ref": "inroot", "type": "library", "name": "inroot"}]},
   "supplier": {"name": "ms"}, "licenses": [{"expression": "MIT OR Apache-2.0"}], "properties": [{"name": "k", "value": "v"}]},
  "components": [
   {"bom-ref": "a", "type": "library", "name": "a", "version": "1", "group": "g", "scope": "required", "publisher": "p", "author": "x", "mime-type": "text/plain",
-   "hashes": [{"alg": "MD5", "content": "11"}, {"alg": "BLAKE3", "content": "22"}], "licenses": [{"license": {"name": "custom", "text": {"content": "t"}}}, {"expression": "MIT"}],
+   "hashes": [{"alg": "MD5", "content": "1111111111111111111111111111111111111111111111111111111111111111"}, {"alg": "BLAKE3", "content": "2222222222222222222222222222222222222222222222222222222222222222"}], "licenses": [{"license": {"name": "custom", "text": {"content": "t"}}}, {"expression": "MIT"}],
    "purl": "pkg:npm/a@1", "cpe": "cpe:/a:a:a:1", "swid": {"tagId": "t", "name": "n"}, "pedigree": {"notes": "n"},
    "externalReferences": [{"type": "website", "url": "https://w"}, {"type": "model-card", "url": "https://m"}],
    "properties": [{"name": "k", "value": "v"}], "evidence": {"copyright": [{"text": "c"}]},
-   "components": [{"type": "file", "name": "noref-file", "hashes": [{"alg": "SHA-512", "content": "33"}]},
+   "components": [{"type": "file", "name": "noref-file", "hashes": [{"alg": "SHA-512", "content": "3333333333333333333333333333333333333333333333333333333333333333"}]},
                   {"bom-ref": "b", "type": "container", "name": "b", "components": [{"bom-ref": "c", "type": "firmware", "name": "c"}]}]},
   {"type": "data", "name": "noref"}
  ],
